@@ -77,6 +77,18 @@ impl BetTable {
         reader.seek(SeekFrom::Start(offset))?;
 
         // Read the compressed/encrypted data
+        // The size comes from the (untrusted) header: it must fit into the file before a
+        // buffer of that size is allocated
+        let stream_len = reader.seek(SeekFrom::End(0))?;
+        if offset
+            .checked_add(compressed_size)
+            .is_none_or(|end| end > stream_len)
+        {
+            return Err(Error::invalid_format(
+                "BET table extends beyond the end of the archive",
+            ));
+        }
+        reader.seek(SeekFrom::Start(offset))?;
         let mut data = vec![0u8; compressed_size as usize];
         reader.read_exact(&mut data)?;
 
